@@ -172,6 +172,27 @@ def r1_languages(ctx):
             msg += 'rejects %r which is a valid %s' % (ob, typ)
         yield Ob(key + ' language', ok, ctx.loc('validation', node), msg,
                  detail={'pattern': pat, 'reference': SPEC[typ], 'dfa_states': res['states'], 'alphabet_classes': res['classes']})
+    # the wrapper's verdict is the regex's and nothing else: decided by constant propagation with the compiled constants in
+    # the environment, on ASCII and non-ASCII digit strings, signed, decimal, blank and mixed texts
+    from ..absint import run_function, NotClosedTest
+    fnm = ctx.func('validation', 'match_re')
+    envc = {nm: re.compile(p_, f_) for nm, (p_, f_, _n) in consts.items()}
+    badw = []
+    for typ in ('N', 'R'):
+        name = sel.get(typ)
+        if name not in envc:
+            continue
+        for v in ('12', '0', '-5', '1.5', '-.5', '', 'A1', '12 ', '1-2', '\u0661\u0662\u0663', '\u00b2', '1\u00b3', '\uff11\uff12', '+1', '1e5'):
+            m_ = envc[name].search(v)
+            want = bool(m_) and m_.group(0) == v
+            try:
+                got = run_function(ctx.cfg(fnm), fnm, [typ, v], {}, env=dict(envc))
+            except (NotClosedTest, A.NotClosed) as e:
+                raise AnalysisError('validation:match_re cannot be decided for %r: %s' % (v, e))
+            if bool(got) != want and len(badw) < 3:
+                badw.append('match_re(%r, %r) is %r, the expression %s says %r' % (typ, v, got, name, want))
+    yield Ob('validation:match_re returns the verdict of the selected expression for every value', not badw, ctx.floc(fnm),
+             '' if not badw else badw[0] + ' - a shortcut beside the expression accepts or rejects values on its own')
     # --- not_match_re wrapper
     fn = ctx.func('validation', 'not_match_re')
     g, IN, table = _selector_table(fn)
